@@ -263,3 +263,107 @@ def rule_ctor_inv(facts):
     r.info = {"constructions": {k: sorted(v) for k, v in seen.items()}}
     r.require_floor(n, facts, "CTOR-INV.sites", "constructions of parse-state types")
     return r
+
+
+# ====================================================================== PANIC-INV (C20 / C11 / C12: explicit panic sites are a reviewed inventory)
+
+_PANIC_CALLS = {"unwrap", "expect", "unwrap_err", "expect_err", "unwrap_unchecked", "unreachable_unchecked", "assert_failed", "assert_failed_inner",
+                "unreachable", "unimplemented", "todo", "borrow_mut", "borrow", "split_at", "split_at_mut", "copy_from_slice", "swap_remove", "remove"}
+
+
+def panic_sites(b):
+    """Operations of body `b` that can panic by themselves: calls into core::panicking, Option/Result unwrap / expect (and the
+    unchecked forms, UB instead of a panic), RefCell borrows, Index / IndexMut with something other than `..`, a few slice / Vec
+    methods with index preconditions, and MIR bounds-check / division assertions.  (Arithmetic-overflow assertions are not counted:
+    AFFINE / STREAM bound the arithmetic that matters, every `+ 1` on a cursor has one.)"""
+    out = []
+    for i, bl in enumerate(b["blocks"]):
+        t = bl["term"]
+        if t["k"] == "assert":
+            m = str(t.get("msg", ""))
+            if m.startswith(("BoundsCheck", "DivisionByZero", "RemainderByZero")):
+                out.append(m.split("(")[0].split(" ")[0])
+            continue
+        if t["k"] != "call":
+            continue
+        f = mirq.callee_of(t)
+        if f is None or f.get("krate") == "chumsky":
+            continue
+        p = mirq.callee_path(f)
+        nm = f["name"]
+        if "panicking" in p or p.endswith("::panic") or nm in ("panic_fmt", "panic_display", "panic_str", "begin_panic"):
+            out.append("panic")
+        elif nm in _PANIC_CALLS and (f.get("krate") in ("core", "std", "alloc")):
+            if nm in ("borrow", "borrow_mut") and "RefCell" not in (f.get("self_ty") or p):
+                continue
+            if nm in ("remove",) and "Vec" not in (f.get("self_ty") or ""):
+                continue
+            out.append(nm)
+        elif nm in ("index", "index_mut") and f.get("krate") in ("core", "std", "alloc"):
+            tys = [a.get("ty", "") for a in t["args"][1:]]
+            if not any("RangeFull" in x for x in tys):
+                out.append("index")
+    return out
+
+
+def rule_panic_inv(facts):
+    """`Parsing is total: ... never a panic`.  Every operation in the crate that can panic on its own is in a reviewed inventory
+    (spec/panic_table.py): the "Can't fail!" unwraps whose precondition PFAIL decides, the documented user-error panics (define()
+    twice, unwrapped(), todo(), ParseResult::unwrap, the debug progress assertions guarded by NONCONSUMPTION-FWD), the boundary-
+    justified unchecked unwraps (INPUT-MISC).  A body that gains a panic-capable operation beyond its reviewed count - or a new body
+    that has one - is reported: a debug guard that panics on a legitimate re-entry, an index where `get` was, an `expect` on a value
+    that a particular grammar makes `None`."""
+    import panic_table as PT
+    import collections
+    r = RuleResult("PANIC-INV")
+    n = 0
+    comp = {}
+    for b in facts.bodies:
+        if b["name"] in DERIVE and b["kind"] != "Closure":
+            continue
+        ss = panic_sites(b)
+        if not ss:
+            continue
+        base = re.sub(r"(::\{closure#\d+\})+$", "", re.sub(r"<.*", "", b["uname"]))
+        c = comp.setdefault(base, collections.Counter())
+        # several instantiations of one generic body (Unwrapped<Option>, Unwrapped<Result>) are one site: keep the maximum
+        cur = collections.Counter(ss)
+        if b["kind"] == "Closure":
+            # closures count towards their parent; instantiations of one closure (generic suffix stripped) are one site
+            key2 = re.sub(r"<.*", "", b["uname"])
+            prev = comp.setdefault(base + "#clos", {})
+            old_ = prev.get(key2, collections.Counter())
+            for k, v in cur.items():
+                if v > old_[k]:
+                    c[k] += v - old_[k]
+                    old_[k] = v
+            prev[key2] = old_
+        else:
+            own = comp.setdefault(base + "#own", collections.Counter())
+            for k, v in cur.items():
+                if v > own[k]:
+                    c[k] += v - own[k]
+                    own[k] = v
+        comp[base + "#file"] = (b["file"], b["line"])
+    files = {k[:-5]: v for k, v in comp.items() if k.endswith("#file")}
+    comp = {k: v for k, v in comp.items() if "#" not in k}
+    for base, c in sorted(comp.items()):
+        want = PT.PANIC_SITES.get(base, {})
+        for kind, cnt in sorted(c.items()):
+            n += 1
+            ok = cnt <= want.get(kind, 0)
+            r.ob(ok)
+            if not ok:
+                r.violations.append(V("PANIC-INV", base, "panic-capable `%s` x%d (reviewed: %d)" % (kind, cnt, want.get(kind, 0)),
+                                      "%s contains %d `%s` operation(s) that can panic by themselves; the reviewed inventory allows %d "
+                                      "(spec/panic_table.py lists every explicit panic site of the crate with the reason it cannot fire, or "
+                                      "is a documented user error): a new one is a way for some grammar / input to abort the parse instead "
+                                      "of yielding a result" % (base, cnt, kind, want.get(kind, 0)), *files[base]))
+    r.explanation = ("%d (function, kind) pairs of panic-capable operations in the crate (panic!/assert!, unwrap/expect and unchecked forms, "
+                     "RefCell borrows, non-`..` indexing, bounds / division assertions): none beyond the reviewed inventory of %d functions"
+                     % (n, len(PT.PANIC_SITES)))
+    r.nontrivial = n
+    r.info = {"computed": {k: dict(v) for k, v in comp.items()}}
+    r.samples = [{k: dict(v)} for k, v in list(sorted(comp.items()))[:4]]
+    r.require_floor(n, facts, "PANIC-INV.sites", "panic-capable (function, kind) pairs")
+    return r
